@@ -50,7 +50,20 @@ def iso(d):
     return None if d is None else d.isoformat()
 
 
-ctx_boundary = [0]
+ctx_boundary = [0, 0]
+MULTI_TYPE_P = [0.5]  # share of estimate files with several site types (quick: lower, they are slow to summarise)
+
+# (measured sites, unmeasured sites) per site type of an estimate file
+EST_LAYOUTS = [
+    [(1, 0), (1, 1), (2, 0), (0, 2)],
+    [(2, 1), (2, 0), (4, 2), (0, 1), (0, 3)],
+    [(1, 0), (1, 0), (2, 1), (4, 0), (0, 1)],
+    [(1, 1), (2, 1), (1, 0), (0, 1)],
+    [(2, 0), (2, 2), (4, 0), (0, 2)],
+    [(4, 0), (0, 2)],
+    [(1, 0), (1, 0), (0, 1)],
+    [(0, 2), (0, 1)],
+]
 
 
 def boundary_days(years):
@@ -153,16 +166,27 @@ def gen_files(rng, years, with_est, quirk=False):
                          rng.randint(0, 1), rng.randint(0, 20), iso(start), iso(end), iso(theory)])
     f = {"ts": ts, "emis": emis, "est": None, "rep": None}
     if with_est:
-        a, b = rng.choice([0, 1, 2, 4]), rng.choice([0, 0, 1, 2])
-        u0, u1 = rng.choice([0, 0, 1, 2]), rng.choice([0, 0, 1])
-        sites = [(0, 1)] * a + [(1, 1)] * b + [(0, 0)] * u0 + [(1, 0)] * u1
+        if rng.random() >= MULTI_TYPE_P[0]:
+            a, b = rng.choice([0, 1, 2, 4]), rng.choice([0, 0, 1, 2])
+            u0, u1 = rng.choice([0, 0, 1, 2]), rng.choice([0, 0, 1])
+            sites = [(0, 1)] * a + [(1, 1)] * b + [(0, 0)] * u0 + [(1, 0)] * u1
+        else:
+            # several site types: unequal numbers of measured sites per type, types without any measured
+            # site (they get the average over ALL measured sites), sites listed but not measured; the
+            # counts keep every average dyadic (per type a power of two, in total a power of two)
+            layout = rng.choice(EST_LAYOUTS)
+            codes = rng.sample(range(0, 12), len(layout))
+            sites = []
+            for code, (m_cnt, u_cnt) in zip(codes, layout):
+                sites += [(code, 1)] * m_cnt + [(code, 0)] * u_cnt
+            ctx_boundary[1] += 1
         if not sites:
             sites = [(0, 1)]
         rng.shuffle(sites)
         est = []
-        ids = rng.sample(range(1, 40), len(sites))
+        ids = rng.sample(range(1, 70), len(sites))
         for sid, (typ, meas) in zip(ids, sites):
-            for (start, end, zero) in gen_intervals(rng, years, rng.randint(1, 3), p_open=0.05):
+            for (start, end, zero) in gen_intervals(rng, years, rng.randint(1, 3 if len(sites) <= 6 else 2), p_open=0.05):
                 est.append([sid, typ, meas, 0 if zero else rng.randint(0, 120), iso(start), iso(end)])
         rng.shuffle(est)
         f["est"] = est
@@ -910,6 +934,7 @@ def run(ctx):
                 "the same output folder through the real initialize_outputs (other n / program sets / retention, junk in "
                 "the folder before the first run) are judged after every run; evaluations = worlds + unit-level protocol lines (file "
                 "names against the real regexes, batch_simulations 0..59 + random, calendar days 1999-12-25..2031-01-09)")
+    MULTI_TYPE_P[0] = ctx.pick(0.25, 0.5)
     core.lean_stage(ctx, MODULE, FILE, drivers=["drv_summary"])
     drv = core.LeanDriver("drv_summary")
 
@@ -933,9 +958,9 @@ def run(ctx):
     specs = []
     ns = list(range(1, 13)) if ctx.quick else list(range(1, 18))
     for n in ns:
-        for keep in ((True, False) if (not ctx.quick or n in (1, 5, 6, 10, 11, 12)) else (ctx.rng.random() < 0.5,)):
+        for keep in ((True, False) if (not ctx.quick or n in (5, 6, 11)) else (ctx.rng.random() < 0.5,)):
             specs.append({"n": n, "keep": keep})
-    for _ in range(ctx.pick(4, 280)):
+    for _ in range(ctx.pick(3, 260)):
         specs.append({})
     worlds = []
     for sp in specs:
@@ -951,7 +976,7 @@ def run(ctx):
         w = gen_world(ctx.rng, n=ctx.rng.choice([1, 2, 6]), quirk=True)
         worlds.append((w, ctx.rng.randrange(10 ** 6), "open-ended"))
     # program names read_csv would take for missing values / numbers when a summary is read back
-    for name in (NA_LIKE if not ctx.quick else ctx.rng.sample(NA_LIKE, 3)):
+    for name in (NA_LIKE if not ctx.quick else ctx.rng.sample(NA_LIKE, 2)):
         w = gen_world(ctx.rng, n=ctx.rng.choice([1, 6, 11]), reserved=name)
         worlds.append((w, ctx.rng.randrange(10 ** 6), "na-like-name"))
     for _ in range(ctx.pick(1, 4)):
@@ -1009,7 +1034,7 @@ def run(ctx):
     import random as _random
 
     hist_inputs = {}
-    for h in range(ctx.pick(3, 14)):
+    for h in range(ctx.pick(2, 14)):
         ws = gen_history(ctx.rng, ctx.rng.choice([2, 2, 3]))
         if h == 0:  # fewer simulations and fewer programs in the re-run, outputs not kept
             ws[0]["keep_all"], ws[1]["keep_all"] = False, False
@@ -1066,6 +1091,7 @@ def run(ctx):
         ctx.violate("C14:history:class-level-state", "class-/module-level containers of the summary code changed during "
                     "the process: %s" % diff, {"before": state0, "after": state1})
     ctx.count("boundary_intervals", ctx_boundary[0])
+    ctx.count("estimate_files_with_several_site_types", ctx_boundary[1])
     for (w, seed, kind, r1, r2) in runs[:3]:
         ctx.sample({"programs": w["programs"], "n": w["n"], "keep_all": w["keep_all"], "years": w["years"],
                     "batches": r1["batches"], "rows": len(r1["final"]["emis"] or [])})
